@@ -29,8 +29,8 @@ func init() {
 // Config is one point of the explored space (and the replay payload).
 //
 // The five scenarios documented in errbase/migrations.go are these points
-// (the documentation's "v1" is V0 here: the code with the original name; its
-// "v2" is V1; its "v0" is the unknowing process):
+// of the plain lineage (the documentation's "v1" is V0 here: the code with
+// the original name; its "v2" is V1; its "v0" is the unknowing process):
 //
 //	scenario 1 forward   transfer leaf  sender V0            recv V1(order 0)
 //	scenario 1 backward  transfer leaf  sender V1(order 0)   recv V0
@@ -45,9 +45,13 @@ type Config struct {
 	// "transfer" (sender -> intermediaries -> receiver) or "routes" (two
 	// senders -> one receiver that compares the two errors).
 	Phase string `json:"phase"`
+	// Lineage: "" (the plain types) or "generic-int", "generic-named",
+	// "generic-pointer" (instantiated generic types, renamed once).
+	Lineage string `json:"lineage,omitempty"`
 	// Kind: "leaf" (a T leaf), "wrapper" (a T wrapper over a stdlib
 	// errors.New leaf), "wrapped-leaf" (a T leaf under the library wrapper
-	// errors.Wrap), "both" (a T wrapper over a T leaf).
+	// errors.Wrap), "both" (a T wrapper over a T leaf), "multi" (a T
+	// multi-cause error over a stdlib leaf and a T leaf).
 	Kind    string `json:"kind,omitempty"`
 	Proc    *Proc  `json:"proc,omitempty"`
 	Sender  *Proc  `json:"sender,omitempty"`
@@ -55,15 +59,22 @@ type Config struct {
 	Sender2 *Proc  `json:"sender2,omitempty"`
 	Mids2   []Proc `json:"mids2,omitempty"`
 	Recv    *Proc  `json:"recv,omitempty"`
-	Enc     bool   `json:"enc"`
-	UPos    int    `json:"upos"`
+	// Enc: every process registers custom encoders; the types then cross
+	// the wire in a payload and the decoders need it.
+	Enc  bool `json:"enc"`
+	UPos int  `json:"upos"`
 }
 
-func (c *Config) opts() opts { return opts{Enc: c.Enc, UPos: c.UPos} }
+func (c *Config) lin() *lineage { return lineageByName(c.Lineage) }
+
+func (c *Config) opts() opts { return opts{Enc: c.Enc, UPos: c.UPos, lin: c.lin()} }
 
 func (c *Config) String() string {
 	var b strings.Builder
 	b.WriteString(c.Phase)
+	if c.Lineage != "" {
+		b.WriteString(" " + c.Lineage)
+	}
 	if c.Kind != "" {
 		b.WriteString(" " + c.Kind)
 	}
@@ -145,44 +156,35 @@ func (c *Config) maxN() int {
 }
 
 func (c *Config) valid() bool {
+	l := c.lin()
+	if l == nil {
+		return false
+	}
 	for _, p := range c.procs() {
-		if !p.valid() {
+		if !p.valid() || !p.fits(l) {
 			return false
 		}
 	}
 	ok := func(p *Proc) bool { return p != nil }
+	kindOK := false
+	for _, k := range l.kinds {
+		kindOK = kindOK || k == c.Kind
+	}
 	switch c.Phase {
 	case "process":
 		return ok(c.Proc)
 	case "transfer":
-		return ok(c.Sender) && c.Sender.knows() && ok(c.Recv) && kindOK(c.Kind)
+		return ok(c.Sender) && c.Sender.knows() && ok(c.Recv) && kindOK
 	case "routes":
-		return ok(c.Sender) && c.Sender.knows() && ok(c.Sender2) && c.Sender2.knows() && ok(c.Recv) && kindOK(c.Kind)
+		return ok(c.Sender) && c.Sender.knows() && ok(c.Sender2) && c.Sender2.knows() && ok(c.Recv) && kindOK
 	}
 	return false
 }
-
-var kinds = []string{"leaf", "wrapper", "wrapped-leaf", "both"}
-
-func kindOK(k string) bool {
-	for _, x := range kinds {
-		if x == k {
-			return true
-		}
-	}
-	return false
-}
-
-// kind traits: is the outermost layer a T layer, is the innermost one, and
-// which T types occur.
-func outerIsT(kind string) bool { return kind != "wrapped-leaf" }
-func innerIsT(kind string) bool { return kind == "wrapped-leaf" || kind == "both" }
-func usesLeaf(kind string) bool { return kind != "wrapper" }
-func usesWrap(kind string) bool { return kind == "wrapper" || kind == "both" }
 
 const (
-	msgA = "boom"
-	msgB = "bang"
+	msgA  = "boom"
+	msgB  = "bang"
+	codeA = "E4711" // carried by the payload only: Error() does not show it
 )
 
 // buildT builds the T part of an error of the given kind with the types of
@@ -190,11 +192,13 @@ const (
 func buildT(kind string, v *version, msg string) error {
 	switch kind {
 	case "wrapper":
-		return v.newWrap(msg, goerrors.New("root"))
+		return v.newWrap(msg, codeA, goerrors.New("root"))
 	case "both":
-		return v.newWrap(msg, v.newLeaf("inner "+msg))
+		return v.newWrap(msg, codeA, v.newLeaf("inner "+msg, codeA))
+	case "multi":
+		return v.newMulti(msg, codeA, []error{goerrors.New("root"), v.newLeaf("inner "+msg, codeA)})
 	}
-	return v.newLeaf(msg)
+	return v.newLeaf(msg, codeA)
 }
 
 func buildFull(kind string, v *version, msg string) error {
@@ -205,21 +209,92 @@ func buildFull(kind string, v *version, msg string) error {
 	return e
 }
 
+// spot is one T layer of an error of a given kind: where it is in the error
+// and in the flattened list of wire layers, and which type of the version
+// it is.
+type spot struct {
+	where string // outermost | innermost | cause[1]
+	role  string // leaf | wrap | multi
+	last  bool   // wire position: first layer (false) or last layer (true)
+}
+
+func spots(kind string) []spot {
+	switch kind {
+	case "leaf":
+		return []spot{{"outermost", "leaf", false}}
+	case "wrapper":
+		return []spot{{"outermost", "wrap", false}}
+	case "wrapped-leaf":
+		return []spot{{"innermost", "leaf", true}}
+	case "both":
+		return []spot{{"outermost", "wrap", false}, {"innermost", "leaf", true}}
+	case "multi":
+		return []spot{{"outermost", "multi", false}, {"cause[1]", "leaf", true}}
+	}
+	return nil
+}
+
+func usesRole(kind, role string) bool {
+	for _, s := range spots(kind) {
+		if s.role == role {
+			return true
+		}
+	}
+	return false
+}
+
+// seen is what a process observes of one T layer of a decoded error.
+type seen struct {
+	typ     string
+	code    string
+	hasCode bool
+}
+
+func observeSpots(kind string, e error) []seen {
+	var out []seen
+	for _, s := range spots(kind) {
+		var at error
+		switch s.where {
+		case "outermost":
+			at = e
+		case "innermost":
+			at = errors.UnwrapAll(e)
+		case "cause[1]":
+			if cs := errbase.UnwrapMulti(e); len(cs) > 1 {
+				at = cs[1]
+			}
+		}
+		o := seen{typ: fmt.Sprintf("%T", at)}
+		if f, ok := at.(fielder); ok {
+			_, o.code = f.fields()
+			o.hasCode = true
+		}
+		out = append(out, o)
+	}
+	return out
+}
+
 // layer is what the wire says about one layer of an encoded error.
 type layer struct {
 	Family, Ext, OrigName, Msg string
+	HasPayload                 bool
 }
 
+// layersOf flattens an encoded error: the wrapper chain, the leaf, then the
+// layers of each cause of a multi-cause leaf.
 func layersOf(enc *errors.EncodedError) []layer {
 	var out []layer
 	for {
 		if w := enc.GetWrapper(); w != nil {
-			out = append(out, layer{w.Details.ErrorTypeMark.FamilyName, w.Details.ErrorTypeMark.Extension, w.Details.OriginalTypeName, w.Message})
+			out = append(out, layer{w.Details.ErrorTypeMark.FamilyName, w.Details.ErrorTypeMark.Extension, w.Details.OriginalTypeName, w.Message, w.Details.FullDetails != nil})
 			enc = &w.Cause
 			continue
 		}
 		if l := enc.GetLeaf(); l != nil {
-			out = append(out, layer{l.Details.ErrorTypeMark.FamilyName, l.Details.ErrorTypeMark.Extension, l.Details.OriginalTypeName, l.Message})
+			out = append(out, layer{l.Details.ErrorTypeMark.FamilyName, l.Details.ErrorTypeMark.Extension, l.Details.OriginalTypeName, l.Message, l.Details.FullDetails != nil})
+			for _, c := range l.MultierrorCauses {
+				out = append(out, layersOf(c)...)
+			}
 		}
 		return out
 	}
@@ -237,15 +312,27 @@ func families(ls []layer) []string {
 	return out
 }
 
+// payloads says, for each T layer of the kind, whether the wire carries a
+// payload for it.
+func payloads(kind string, ls []layer) []bool {
+	var out []bool
+	for _, s := range spots(kind) {
+		i := 0
+		if s.last {
+			i = len(ls) - 1
+		}
+		out = append(out, i >= 0 && i < len(ls) && ls[i].HasPayload)
+	}
+	return out
+}
+
 // short strips this package's path from a key (messages only).
 func short(key string) string { return strings.TrimPrefix(key, pkgPath+"/") }
 
 // mine tells whether a type key names a type of this package.
 func mine(key string) bool { return strings.HasPrefix(key, pkgPath+"/") }
 
-// ref is the reference behaviour for one kind: what the original code (V0)
-// puts on the wire. The T layers of it are asserted to carry the model's
-// name0 keys, so comparisons with it are comparisons with the model.
+// ref is the reference for one lineage and kind (see setupRefs).
 type ref struct {
 	fams      []string
 	wire      []byte // V0's encoding, message msgA
@@ -254,6 +341,8 @@ type ref struct {
 }
 
 var refs = map[string]*ref{}
+
+func (c *Config) ref() *ref { return refs[c.Lineage+"|"+c.Kind] }
 
 func tableString() string {
 	t := errbase.VerifMigrationTable()
@@ -278,11 +367,16 @@ type failure struct {
 // run is the execution of one configuration.
 type run struct {
 	cfg    *Config
+	lin    *lineage
 	fails  []failure
 	steps  int64 // encode / decode steps
 	evals  int64 // oracle evaluations
 	obs    map[string]interface{}
 	broken bool // a step panicked: the pipeline cannot continue
+}
+
+func newRun(cfg *Config) *run {
+	return &run{cfg: cfg, lin: cfg.lin(), obs: map[string]interface{}{}}
 }
 
 func (x *run) fail(clause string, at Proc, f string, a ...interface{}) {
@@ -315,79 +409,93 @@ func isG(e, ref error) (res bool, pv interface{}) {
 	return
 }
 
+// arrival is an encoded error in transit with what the wire says about it.
+type arrival struct {
+	wire []byte
+	fams []string
+	pay  []bool // per T layer: does the wire carry a payload
+	text string // the sender's Error()
+}
+
+// checkPayloadOnWire: with encoders on, every T layer crosses the wire with
+// the payload its encoder returned; without, with none.
+func (x *run) checkPayloadOnWire(p Proc, role string, pay []bool) {
+	want := x.cfg.Enc
+	for i, s := range spots(x.cfg.Kind) {
+		x.check(pay[i] == want, "payload", p,
+			"%s %s puts the %s layer (its %s type) on the wire with payload=%v; with encoders=%v the custom encoder registered under GetTypeKey of that type must have been used=%v",
+			role, p, s.where, s.role, pay[i], want, want)
+	}
+}
+
 // send encodes, under the view of process s, an error of the configured
 // kind built with s's own types.
-func (x *run) send(s Proc, msg string, tag string) (wire []byte, fams []string, text string) {
-	kind := x.cfg.Kind
-	var tkLeaf, tkWrap, table string
+func (x *run) send(s Proc, msg string, tag string) (a arrival) {
+	kind, root := x.cfg.Kind, x.lin.chain[0]
+	cur := s.cur(x.lin)
+	tk := map[string]string{}
+	var table string
 	var merr error
 	if !x.view(s, "encode", func() {
-		e := buildFull(kind, s.cur(), msg)
-		text = e.Error()
-		tkLeaf = string(errors.GetTypeKey(s.cur().newLeaf(msg)))
-		tkWrap = string(errors.GetTypeKey(s.cur().newWrap(msg, goerrors.New("root"))))
+		e := buildFull(kind, cur, msg)
+		a.text = e.Error()
+		for _, tp := range cur.protos() {
+			tk[tp.role] = string(errors.GetTypeKey(tp.proto))
+		}
 		table = tableString()
 		enc := errors.EncodeError(context.Background(), e)
-		fams = families(layersOf(&enc))
-		wire, merr = proto.Marshal(&enc)
+		ls := layersOf(&enc)
+		a.fams, a.pay = families(ls), payloads(kind, ls)
+		a.wire, merr = proto.Marshal(&enc)
 	}) {
-		return nil, nil, ""
+		return arrival{}
 	}
 	x.steps++
 	if merr != nil {
 		x.broken = true
 		x.fail("marshal", s, "proto.Marshal of the encoded error fails: %v", merr)
-		return nil, nil, ""
+		return arrival{}
 	}
-	x.obs["wire_families"+tag] = fams
+	x.obs["wire_families"+tag] = a.fams
 	// (a) the wire key is name0's key, whatever the version and the order
-	x.check(reflect.DeepEqual(fams, refs[kind].fams), "wirekey", s,
+	x.check(reflect.DeepEqual(a.fams, x.cfg.ref().fams), "wirekey", s,
 		"sender %s encodes the error under the family names %v; the original code (and the model: every name of the type denotes name0) uses %v. GetTypeKey of its leaf type = %s, of its wrapper type = %s; its migration table: %s",
-		s, fams, refs[kind].fams, short(tkLeaf), short(tkWrap), table)
-	if usesLeaf(kind) {
-		x.check(tkLeaf == modelKey(chainT[0].leafName()), "typekey", s,
+		s, a.fams, x.cfg.ref().fams, short(tk["leaf"]), short(tk["wrap"]), table)
+	for _, tp := range cur.protos() {
+		if !usesRole(kind, tp.role) {
+			continue
+		}
+		cn, rn := cur.typeOf(tp.role).String(), root.typeOf(tp.role).String()
+		x.check(tk[tp.role] == modelKey(rn), "typekey", s,
 			"GetTypeKey(%s) under the view of %s is %s, want the original name %s; migration table: %s",
-			s.cur().leafName(), s, short(tkLeaf), chainT[0].leafName(), table)
+			cn, s, short(tk[tp.role]), rn, table)
 	}
-	if usesWrap(kind) {
-		x.check(tkWrap == modelKey(chainT[0].wrapName()), "typekey", s,
-			"GetTypeKey(%s) under the view of %s is %s, want the original name %s; migration table: %s",
-			s.cur().wrapName(), s, short(tkWrap), chainT[0].wrapName(), table)
-	}
-	return wire, fams, text
+	x.checkPayloadOnWire(s, "sender", a.pay)
+	return a
 }
 
-// checkDecoded applies oracle (b) to an error decoded by process p.
-func (x *run) checkDecoded(p Proc, role string, outerT, innerT, gotText, wantText string, arrived []string) {
+// checkDecoded applies oracle (b) to an error decoded by process p: every T
+// layer has p's own Go type (an opaque type if p is unknowing), the text is
+// the sender's, and with encoders on the payload-carried field arrived.
+func (x *run) checkDecoded(p Proc, role string, got []seen, gotText string, a arrival) {
 	kind := x.cfg.Kind
-	if p.knows() {
-		v := p.cur()
-		if outerIsT(kind) {
-			want := v.leafType().String()
-			if usesWrap(kind) {
-				want = v.wrapType().String()
-			}
-			x.check(outerT == want, "decode-type", p,
-				"%s %s decodes the error (arriving under the family names %v) to a %s; it must decode it to its own type %s",
-				role, p, arrived, outerT, want)
+	for i, s := range spots(kind) {
+		if !p.knows() {
+			x.check(strings.HasPrefix(got[i].typ, "*errbase.opaque"), "decode-type", p,
+				"the unknowing %s decodes the %s layer to a %s, want an opaque type", role, s.where, got[i].typ)
+			continue
 		}
-		if innerIsT(kind) {
-			want := v.leafType().String()
-			x.check(innerT == want, "decode-type", p,
-				"%s %s decodes the innermost layer (family names on arrival %v) to a %s; it must decode it to its own type %s",
-				role, p, arrived, innerT, want)
-		}
-	} else {
-		if outerIsT(kind) {
-			x.check(strings.HasPrefix(outerT, "*errbase.opaque"), "decode-type", p,
-				"the unknowing %s decodes the error to a %s, want an opaque type", role, outerT)
-		}
-		if innerIsT(kind) {
-			x.check(strings.HasPrefix(innerT, "*errbase.opaque"), "decode-type", p,
-				"the unknowing %s decodes the innermost layer to a %s, want an opaque type", role, innerT)
+		want := p.cur(x.lin).typeOf(s.role).String()
+		x.check(got[i].typ == want, "decode-type", p,
+			"%s %s decodes the %s layer of the error (arriving under the family names %v, payloads %v) to a %s; it must decode it to its own type %s",
+			role, p, s.where, a.fams, a.pay, got[i].typ, want)
+		if x.cfg.Enc && got[i].typ == want {
+			x.check(got[i].hasCode && got[i].code == codeA, "payload", p,
+				"%s %s: the field carried by the payload of the %s layer is %q after the transfer, the sender had %q",
+				role, p, s.where, got[i].code, codeA)
 		}
 	}
-	x.check(gotText == wantText, "text", p, "%s %s: Error() = %q, the sender had %q", role, p, gotText, wantText)
+	x.check(gotText == a.text, "text", p, "%s %s: Error() = %q, the sender had %q", role, p, gotText, a.text)
 }
 
 func decodeWire(wire []byte) (error, error) {
@@ -398,62 +506,62 @@ func decodeWire(wire []byte) (error, error) {
 	return errors.DecodeError(context.Background(), enc), nil
 }
 
-func typeNames(e error) (outer, inner string) {
-	return fmt.Sprintf("%T", e), fmt.Sprintf("%T", errors.UnwrapAll(e))
-}
-
 // relay decodes and re-encodes under the view of the intermediary m.
-func (x *run) relay(m Proc, wire []byte, arrived []string, text string) ([]byte, []string) {
-	var outerT, innerT, gotText string
-	var fams []string
-	var out []byte
+func (x *run) relay(m Proc, a arrival) arrival {
+	kind := x.cfg.Kind
+	var got []seen
+	var gotText string
+	out := arrival{text: a.text}
 	var uerr, merr error
 	if !x.view(m, "relay", func() {
 		var e error
-		if e, uerr = decodeWire(wire); uerr != nil {
+		if e, uerr = decodeWire(a.wire); uerr != nil {
 			return
 		}
-		outerT, innerT = typeNames(e)
+		got = observeSpots(kind, e)
 		gotText = e.Error()
 		enc := errors.EncodeError(context.Background(), e)
-		fams = families(layersOf(&enc))
-		out, merr = proto.Marshal(&enc)
+		ls := layersOf(&enc)
+		out.fams, out.pay = families(ls), payloads(kind, ls)
+		out.wire, merr = proto.Marshal(&enc)
 	}) {
-		return nil, nil
+		return arrival{}
 	}
 	x.steps += 2
 	if uerr != nil || merr != nil {
 		x.broken = true
 		x.fail("marshal", m, "protobuf round trip at %s fails: %v %v", m, uerr, merr)
-		return nil, nil
+		return arrival{}
 	}
-	x.checkDecoded(m, "intermediary", outerT, innerT, gotText, text, arrived)
+	x.checkDecoded(m, "intermediary", got, gotText, a)
 	// (d) re-encoding preserves the wire key
-	x.check(reflect.DeepEqual(fams, arrived), "reencode", m,
-		"intermediary %s received the family names %v and forwards %v", m, arrived, fams)
-	return out, fams
+	x.check(reflect.DeepEqual(out.fams, a.fams), "reencode", m,
+		"intermediary %s received the family names %v and forwards %v", m, a.fams, out.fams)
+	x.checkPayloadOnWire(m, "intermediary", out.pay)
+	return out
 }
 
 // route runs sender and intermediaries; it returns what arrives.
-func (x *run) route(s Proc, mids []Proc, msg, tag string) (wire []byte, fams []string, text string) {
-	wire, fams, text = x.send(s, msg, tag)
+func (x *run) route(s Proc, mids []Proc, msg, tag string) arrival {
+	a := x.send(s, msg, tag)
 	for _, m := range mids {
 		if x.broken {
-			return
+			return a
 		}
-		wire, fams = x.relay(m, wire, fams, text)
+		a = x.relay(m, a)
 	}
-	return
+	return a
 }
 
 func runTransfer(cfg *Config) *run {
-	x := &run{cfg: cfg, obs: map[string]interface{}{}}
+	x := newRun(cfg)
 	kind, r := cfg.Kind, *cfg.Recv
-	wire, arrived, text := x.route(*cfg.Sender, cfg.Mids, msgA, "")
+	a := x.route(*cfg.Sender, cfg.Mids, msgA, "")
 	if x.broken {
 		return x
 	}
-	var outerT, innerT, gotText string
+	var got []seen
+	var gotText string
 	var uerr error
 	type isObs struct {
 		name      string
@@ -464,10 +572,10 @@ func runTransfer(cfg *Config) *run {
 	var is []isObs
 	if !x.view(r, "decode", func() {
 		var e error
-		if e, uerr = decodeWire(wire); uerr != nil {
+		if e, uerr = decodeWire(a.wire); uerr != nil {
 			return
 		}
-		outerT, innerT = typeNames(e)
+		got = observeSpots(kind, e)
 		gotText = e.Error()
 		add := func(name, clause string, want bool, a, b error) {
 			got, pv := isG(a, b)
@@ -475,15 +583,17 @@ func runTransfer(cfg *Config) *run {
 		}
 		if r.knows() {
 			// (c) Is against fresh local instances of the receiver's own type
-			add("Is(received, local instance of "+r.Ver+" with the same message)", "is-local", true, e, buildT(kind, r.cur(), msgA))
-			add("Is(received, local instance of "+r.Ver+" with another message)", "is-othermsg", false, e, buildT(kind, r.cur(), msgB))
+			cur := r.cur(x.lin)
+			add("Is(received, local instance of "+r.Ver+" with the same message)", "is-local", true, e, buildT(kind, cur, msgA))
+			add("Is(received, local instance of "+r.Ver+" with another message)", "is-othermsg", false, e, buildT(kind, cur, msgB))
 			add("Is(received, local instance of the unrelated lineage U with the same message)", "is-unrelated", false, e, buildT(kind, chainU[1], msgA))
 		} else {
 			// (c) at a third party that knows nothing: compare with the
 			// error that the original code sent directly.
-			d0, err0 := decodeWire(refs[kind].wire)
-			d1, err1 := decodeWire(refs[kind].wireOther)
-			du, err2 := decodeWire(refs[kind].wireU)
+			rf := cfg.ref()
+			d0, err0 := decodeWire(rf.wire)
+			d1, err1 := decodeWire(rf.wireOther)
+			du, err2 := decodeWire(rf.wireU)
 			if err0 != nil || err1 != nil || err2 != nil {
 				uerr = fmt.Errorf("reference wire: %v %v %v", err0, err1, err2)
 				return
@@ -503,9 +613,12 @@ func runTransfer(cfg *Config) *run {
 		x.fail("marshal", r, "proto.Unmarshal at %s fails: %v", r, uerr)
 		return x
 	}
-	x.obs["received_type"] = outerT
-	x.obs["received_innermost_type"] = innerT
-	x.checkDecoded(r, "receiver", outerT, innerT, gotText, text, arrived)
+	var types []string
+	for _, g := range got {
+		types = append(types, g.typ)
+	}
+	x.obs["received_types_of_the_T_layers"] = types
+	x.checkDecoded(r, "receiver", got, gotText, a)
 	for _, o := range is {
 		x.obs[o.name] = o.got
 		if o.pv != nil {
@@ -513,24 +626,24 @@ func runTransfer(cfg *Config) *run {
 			x.fail("panic-is", r, "%s panics at %s: %v", o.name, r, o.pv)
 			continue
 		}
-		x.check(o.got == o.want, o.clause, r, "at receiver %s: %s = %v, want %v (received a %s under the family names %v)",
-			r, o.name, o.got, o.want, outerT, arrived)
+		x.check(o.got == o.want, o.clause, r, "at receiver %s: %s = %v, want %v (received %v under the family names %v)",
+			r, o.name, o.got, o.want, types, a.fams)
 	}
 	return x
 }
 
 func runRoutes(cfg *Config) *run {
-	x := &run{cfg: cfg, obs: map[string]interface{}{}}
+	x := newRun(cfg)
 	r := *cfg.Recv
-	w1, f1, _ := x.route(*cfg.Sender, cfg.Mids, msgA, "_1")
+	a1 := x.route(*cfg.Sender, cfg.Mids, msgA, "_1")
 	if x.broken {
 		return x
 	}
-	w2, f2, _ := x.route(*cfg.Sender2, cfg.Mids2, msgA, "_2")
+	a2 := x.route(*cfg.Sender2, cfg.Mids2, msgA, "_2")
 	if x.broken {
 		return x
 	}
-	w3, _, _ := x.route(*cfg.Sender2, cfg.Mids2, msgB, "_3")
+	a3 := x.route(*cfg.Sender2, cfg.Mids2, msgB, "_3")
 	if x.broken {
 		return x
 	}
@@ -539,9 +652,9 @@ func runRoutes(cfg *Config) *run {
 	res := map[string]bool{}
 	var pvs []string
 	if !x.view(r, "decode", func() {
-		d1, e1 := decodeWire(w1)
-		d2, e2 := decodeWire(w2)
-		d3, e3 := decodeWire(w3)
+		d1, e1 := decodeWire(a1.wire)
+		d2, e2 := decodeWire(a2.wire)
+		d3, e3 := decodeWire(a3.wire)
 		if e1 != nil || e2 != nil || e3 != nil {
 			uerr = fmt.Errorf("%v %v %v", e1, e2, e3)
 			return
@@ -575,22 +688,22 @@ func runRoutes(cfg *Config) *run {
 	}
 	x.check(res["12"] && res["21"], "is-routes", r,
 		"at %s, the error from %s (a %s, family names %v) and the error from %s (a %s, family names %v) denote the same logical type and message, but Is(e1,e2)=%v Is(e2,e1)=%v",
-		r, cfg.Sender, t1, f1, cfg.Sender2, t2, f2, res["12"], res["21"])
+		r, cfg.Sender, t1, a1.fams, cfg.Sender2, t2, a2.fams, res["12"], res["21"])
 	x.check(!res["13"] && !res["31"], "is-othermsg", r,
 		"at %s, errors with different messages from %s and %s: Is(e1,e3)=%v Is(e3,e1)=%v, want false", r, cfg.Sender, cfg.Sender2, res["13"], res["31"])
 	return x
 }
 
 // runProcess checks what one process's registrations must guarantee
-// whatever happens to lineage T: the registrations succeed, types outside
-// lineage T keep their keys (the unrelated lineage U resolves to its first
+// whatever happens to the lineage: the registrations succeed, types outside
+// the lineage keep their keys (the unrelated lineage U resolves to its first
 // name; the rest of the migration table is what it was), and clause (e):
 // declaring a migration to the same new type again is rejected and leaves
-// the table alone. The state of lineage T itself is judged by what it makes
-// observable, in the transfer phase (type key and wire key at every sender
-// spec, decoding at every receiver spec).
+// the table alone. The state of the lineage itself is judged by what it
+// makes observable, in the transfer phase (type key and wire key at every
+// sender spec, decoding at every receiver spec).
 func runProcess(cfg *Config) *run {
-	x := &run{cfg: cfg, obs: map[string]interface{}{}}
+	x := newRun(cfg)
 	p := *cfg.Proc
 	calls := p.migrationCalls(cfg.opts())
 	var pristineTable map[string]string
@@ -600,8 +713,10 @@ func runProcess(cfg *Config) *run {
 	})
 	stdKey := string(errors.GetTypeKey(goerrors.New("x")))
 	isT := map[string]bool{}
-	for _, v := range append([]*version{altT}, chainT...) {
-		isT[modelKey(v.leafName())], isT[modelKey(v.wrapName())] = true, true
+	for _, v := range x.lin.versions() {
+		for _, tp := range v.protos() {
+			isT[modelKey(reflect.TypeOf(tp.proto).String())] = true
+		}
 	}
 	outsideT := func(t map[string]string) map[string]string {
 		o := map[string]string{}
@@ -621,22 +736,24 @@ func runProcess(cfg *Config) *run {
 			want[k] = v
 		}
 		if p.knows() {
-			ulk, uwk := string(errors.GetTypeKey(chainU[1].leafProto)), string(errors.GetTypeKey(chainU[1].wrapProto))
-			x.check(ulk == modelKey(chainU[0].leafName()) && uwk == modelKey(chainU[0].wrapName()), "unrelated", p,
-				"after the registrations of %s, the unrelated lineage U has keys %s / %s, want %s / %s; migration table: %s",
-				p, short(ulk), short(uwk), chainU[0].leafName(), chainU[0].wrapName(), ts)
-			want[modelKey(chainU[1].leafName())] = modelKey(chainU[0].leafName())
-			want[modelKey(chainU[1].wrapName())] = modelKey(chainU[0].wrapName())
+			for _, tp := range chainU[1].protos() {
+				got := string(errors.GetTypeKey(tp.proto))
+				rn := chainU[0].typeOf(tp.role).String()
+				x.check(got == modelKey(rn), "unrelated", p,
+					"after the registrations of %s, the %s type of the unrelated lineage U has key %s, want %s; migration table: %s",
+					p, tp.role, short(got), rn, ts)
+				want[modelKey(chainU[1].typeOf(tp.role).String())] = modelKey(rn)
+			}
 		}
 		x.check(string(errors.GetTypeKey(goerrors.New("x"))) == stdKey, "unrelated", p,
 			"the registrations of %s change the key of the stdlib leaf type", p)
 		x.check(reflect.DeepEqual(outsideT(table), want), "unrelated", p,
-			"the registrations of %s leave these migration table entries outside lineage T: %s; the model has %s",
+			"the registrations of %s leave these migration table entries outside the lineage: %s; the model has %s",
 			p, modelTableString(outsideT(table)), modelTableString(want))
 		// (e) double registration
 		for _, c := range calls {
 			c := c
-			pv := guard(func() { errors.RegisterTypeMigration(pkgPath, c.prevName, c.newProto) })
+			pv := guard(func() { errors.RegisterTypeMigration(c.prevPkg, c.prevName, c.newProto) })
 			x.check(pv != nil, "double-reg", p, "repeating %s in %s does not panic", c, p)
 			pv = guard(func() { errors.RegisterTypeMigration(pkgPath, "*vermc.NeverExisted", c.newProto) })
 			x.check(pv != nil, "double-reg", p, "a second migration to %T (from another previous name) in %s does not panic", c.newProto, p)
@@ -661,8 +778,11 @@ func modelTableString(t map[string]string) string {
 	return "{" + strings.Join(rows, " ") + "}"
 }
 
-// setupRefs takes the pristine snapshot and computes, per kind, what the
-// original code puts on the wire; T layers must carry the model's keys.
+// setupRefs takes the pristine snapshot and computes, per lineage and kind,
+// the reference: the family names of the layers that are not T layers are
+// what the original code (V0) puts on the wire, those of the T layers are
+// the model's keys of the first name; and V0's encodings, for the third
+// party comparisons.
 func setupRefs(r *core.Result) bool {
 	pristine = errbase.VerifSnapshotRegistries()
 	for k := range errbase.VerifMigrationTable() {
@@ -672,59 +792,62 @@ func setupRefs(r *core.Result) bool {
 		}
 	}
 	v0 := Proc{Ver: "V0"}
-	for _, kind := range kinds {
-		rf := &ref{}
-		var err error
-		pv, _ := inView(v0, opts{}, func() {
-			enc := func(e error) []byte {
-				ee := errors.EncodeError(context.Background(), e)
-				b, merr := proto.Marshal(&ee)
-				if merr != nil {
-					err = merr
+	for _, l := range lineages {
+		for _, kind := range l.kinds {
+			rf := &ref{}
+			var err error
+			pv, _ := inView(v0, opts{lin: l}, func() {
+				enc := func(e error) []byte {
+					ee := errors.EncodeError(context.Background(), e)
+					b, merr := proto.Marshal(&ee)
+					if merr != nil {
+						err = merr
+					}
+					return b
 				}
-				return b
+				ee := errors.EncodeError(context.Background(), buildFull(kind, l.chain[0], msgA))
+				ls := layersOf(&ee)
+				rf.fams = families(ls)
+				rf.wire = enc(buildFull(kind, l.chain[0], msgA))
+				rf.wireOther = enc(buildFull(kind, l.chain[0], msgB))
+				rf.wireU = enc(buildFull(kind, chainU[1], msgA))
+				// the model, not V0's behaviour, says what the T layers are
+				// keyed as: "<pkgpath>/<reflect name of the first name>"
+				for _, s := range spots(kind) {
+					i := 0
+					if s.last {
+						i = len(ls) - 1
+					}
+					rf.fams[i] = short(modelKey(l.chain[0].typeOf(s.role).String()))
+				}
+			})
+			if pv != nil || err != nil {
+				r.HarnessError("C17: reference encoding for lineage %q kind %s: panic=%v err=%v", l.name, kind, pv, err)
+				return false
 			}
-			ee := errors.EncodeError(context.Background(), buildFull(kind, chainT[0], msgA))
-			ls := layersOf(&ee)
-			rf.fams = families(ls)
-			rf.wire = enc(buildFull(kind, chainT[0], msgA))
-			rf.wireOther = enc(buildFull(kind, chainT[0], msgB))
-			rf.wireU = enc(buildFull(kind, chainU[1], msgA))
-			// sanity: T layers carry the model keys
-			if outerIsT(kind) {
-				want := chainT[0].leafName()
-				if usesWrap(kind) {
-					want = chainT[0].wrapName()
-				}
-				if ls[0].Family != modelKey(want) {
-					err = fmt.Errorf("kind %s: outer layer of V0's encoding has family %q, model %q", kind, ls[0].Family, modelKey(want))
-				}
-			}
-			if innerIsT(kind) {
-				if got := ls[len(ls)-1].Family; got != modelKey(chainT[0].leafName()) {
-					err = fmt.Errorf("kind %s: innermost layer of V0's encoding has family %q, model %q", kind, got, modelKey(chainT[0].leafName()))
-				}
-			}
-		})
-		if pv != nil || err != nil {
-			r.HarnessError("C17: reference encoding for kind %s: panic=%v err=%v", kind, pv, err)
-			return false
+			refs[l.name+"|"+kind] = rf
 		}
-		refs[kind] = rf
 	}
 	return true
+}
+
+func lineageSuffix(name string) string {
+	if name != "" {
+		return "|generic"
+	}
+	return ""
 }
 
 func runC17(c *core.Ctx, r *core.Result) {
 	if c.Shard != 0 {
 		return
 	}
-	maxN := 3
-	r.Rule = "state = one configuration (phase, kind, process spec of sender / intermediaries / receiver incl. registration order, encoders, position of the unrelated migration); transition = one encode or decode step under a process view; non-trivial = sender and receiver run different versions; outcome class = kind | longest chain n | first failing clause"
+	r.Rule = "state = one configuration (phase, lineage, kind, process spec of sender / intermediaries / receiver incl. registration order and observation points, encoders, position of the unrelated migration); transition = one encode or decode step under a process view; non-trivial = sender and receiver run different versions; outcome class = lineage kind | longest chain n | first failing clause"
 	r.Assumptions = []string{
 		"one name of a type = one distinct Go type of package vermc (a Go type cannot be renamed at run time)",
 		"a process = pristine registries + that process's registrations, installed around each encode/decode step with the errbase snapshot hooks (build overlay)",
-		"a V_k binary declares one RegisterTypeMigration per rename step (or, 'direct', the single call name0 -> name_k); migrations before decoders, as documented",
+		"a V_k binary declares one RegisterTypeMigration per rename step (or, 'direct', the single call name0 -> name_k), with the package path and reflect.TypeOf(err).String() of the previous type, as documented; migrations before decoders, as documented",
+		"with encoders on, every type of the lineage crosses the wire in a payload (custom encoder registered under GetTypeKey) and its decoder fails without that payload",
 		"each configuration reports its first diverging clause, attributed to the process where model and observation diverge; later failing clauses of the same configuration are listed in the message and counted under counters consequent:<clause>",
 	}
 	if !setupRefs(r) {
@@ -743,8 +866,28 @@ func runC17(c *core.Ctx, r *core.Result) {
 		return
 	}
 
-	procs := knowingProcs(maxN)
-	observing := observingProcs(maxN)
+	samples := &sampler{}
+	capped := false
+	stop := func() bool {
+		if !capped && c.Expired() {
+			r.Cap("soft deadline reached before the enumeration finished")
+			capped = true
+		}
+		return capped
+	}
+	var bounds []string
+	for _, l := range lineages {
+		bounds = append(bounds, enumerate(c, r, l, samples, stop))
+	}
+	r.Bounds = strings.Join(bounds, " || ")
+	samples.flush(r)
+}
+
+// enumerate explores one lineage and returns the description of the bounds.
+func enumerate(c *core.Ctx, r *core.Result, l *lineage, samples *sampler, stop func() bool) string {
+	maxN := l.maxN()
+	procs := knowingProcs(l)
+	observing := observingProcs(l)
 	others := append(append([]Proc{}, procs...), Proc{Ver: unknowing})
 	sendAll := append(append([]Proc{}, procs...), observing...)
 	recvAll := append(append([]Proc{}, others...), observing...)
@@ -773,20 +916,13 @@ func runC17(c *core.Ctx, r *core.Result) {
 	bools := []bool{false, true}
 	uposs := []int{0, maxN}
 	if c.Thorough() {
-		uposs = []int{0, 1, 2, 3}
-	}
-
-	samples := &sampler{}
-	capped := false
-	stop := func() bool {
-		if !capped && c.Expired() {
-			r.Cap("soft deadline reached before the enumeration finished")
-			capped = true
+		uposs = nil
+		for i := 0; i <= maxN; i++ {
+			uposs = append(uposs, i)
 		}
-		return capped
 	}
 	transfers := func(senders []Proc, midSets [][]Proc, recvs []Proc, encs []bool, ups []int) {
-		for _, kind := range kinds {
+		for _, kind := range l.kinds {
 			for si := range senders {
 				if stop() {
 					return
@@ -795,7 +931,7 @@ func runC17(c *core.Ctx, r *core.Result) {
 					for ri := range recvs {
 						for _, enc := range encs {
 							for _, up := range ups {
-								execute(r, &Config{Phase: "transfer", Kind: kind, Sender: &senders[si], Mids: mids, Recv: &recvs[ri], Enc: enc, UPos: up}, samples)
+								execute(r, &Config{Phase: "transfer", Lineage: l.name, Kind: kind, Sender: &senders[si], Mids: mids, Recv: &recvs[ri], Enc: enc, UPos: up}, samples)
 							}
 						}
 					}
@@ -804,7 +940,7 @@ func runC17(c *core.Ctx, r *core.Result) {
 		}
 	}
 	routes := func(recvs []Proc, midSets [][]Proc, os []opts) {
-		for _, kind := range kinds {
+		for _, kind := range l.kinds {
 			for s1 := range procs {
 				if stop() {
 					return
@@ -813,7 +949,7 @@ func runC17(c *core.Ctx, r *core.Result) {
 					for _, mids2 := range midSets {
 						for ri := range recvs {
 							for _, o := range os {
-								execute(r, &Config{Phase: "routes", Kind: kind, Sender: &procs[s1], Sender2: &procs[s2], Mids2: mids2, Recv: &recvs[ri], Enc: o.Enc, UPos: o.UPos}, samples)
+								execute(r, &Config{Phase: "routes", Lineage: l.name, Kind: kind, Sender: &procs[s1], Sender2: &procs[s2], Mids2: mids2, Recv: &recvs[ri], Enc: o.Enc, UPos: o.UPos}, samples)
 							}
 						}
 					}
@@ -827,29 +963,36 @@ func runC17(c *core.Ctx, r *core.Result) {
 	for i := range recvAll {
 		for _, enc := range bools {
 			for _, up := range uposs {
-				execute(r, &Config{Phase: "process", Proc: &recvAll[i], Enc: enc, UPos: up}, samples)
+				execute(r, &Config{Phase: "process", Lineage: l.name, Proc: &recvAll[i], Enc: enc, UPos: up}, samples)
 			}
 		}
 	}
-	if !c.Thorough() {
-		r.Bounds = fmt.Sprintf("rename chains of length n<=%d for a leaf type and a wrapper type: all n! registration orders + the single-call declaration + a differently renamed version = %d knowing process specs, + an unknowing process; every subset of the observation points of a process's start-up history (one point before each rename declaration) = %d more specs; kinds %v; encoders{off,on} x unrelated-migration position %v unless said otherwise. process: every spec. transfer without observations: every sender x {no intermediary, each of %d} x receiver (%d). transfer with an observing sender (every subset) x {no intermediary, V0, unknowing} x every plain receiver; the same with an observing receiver and every plain sender; observing sender x observing receiver (direct, encoders off, position 0); plain sender x observing intermediary x plain receiver (encoders off, position 0). routes: every unordered pair of plain senders x plain receiver (encoders off, position 0)",
-			maxN, len(procs), len(observing), kinds, uposs, len(others), len(others))
+	name := l.name
+	if name == "" {
+		name = "plain"
+	}
+	head := fmt.Sprintf("lineage %s: rename chains of length n<=%d (all n! registration orders + single-call declaration%s = %d knowing process specs, + an unknowing process; every subset of the observation points of a start-up history = %d more specs); kinds %v; encoders{off,on: payload-carrying} x unrelated-migration position %v.",
+		name, maxN, map[bool]string{true: " + a differently renamed version", false: ""}[l.alt != nil], len(procs), len(observing), l.kinds, uposs)
+	switch {
+	case l.name != "" || c.Thorough():
+		// small lineages, and the thorough tier: the full product
+		transfers(sendAll, join(none, singles), recvAll, bools, uposs)
+		transfers(procs, pairs, others, bools, uposs)
+		transfers(procs, observingMids, others, bools, uposs)
+		routes(recvAll, join(none, singles), []opts{{Enc: false, UPos: 0}, {Enc: true, UPos: 0}, {Enc: false, UPos: maxN}, {Enc: true, UPos: 1}})
+		return head + fmt.Sprintf(" process: every spec. transfer: every sender (plain or observing, %d) x {no intermediary, each of %d plain} x every receiver (plain or observing, %d); every plain sender x every pair of plain intermediaries (%d) x plain receiver; plain sender x observing intermediary x plain receiver. routes: every unordered pair of plain senders, second route via {none, each of %d}, x every receiver, 4 option combinations",
+			len(sendAll), len(others), len(recvAll), len(pairs), len(others))
+	default:
 		short3 := [][]Proc{nil, {{Ver: "V0"}}, {{Ver: unknowing}}}
 		transfers(procs, join(none, singles), others, bools, uposs)
 		transfers(observing, short3, others, bools, uposs)
 		transfers(procs, short3, observing, bools, uposs)
 		transfers(observing, none, observing, bools[:1], uposs[:1])
 		transfers(procs, observingMids, others, bools[:1], uposs[:1])
-		routes(others, none, []opts{{false, 0}})
-	} else {
-		r.Bounds = fmt.Sprintf("rename chains of length n<=%d for a leaf type and a wrapper type: all n! registration orders + the single-call declaration + a differently renamed version = %d knowing process specs, + an unknowing process; every subset of the observation points of a process's start-up history (one point before each rename declaration) = %d more specs; kinds %v; encoders{off,on} x unrelated-migration position %v. process: every spec. transfer: every sender (plain or observing, %d) x {no intermediary, each of %d plain} x every receiver (plain or observing, %d); every plain sender x every pair of plain intermediaries (%d) x plain receiver; plain sender x observing intermediary x plain receiver. routes: every unordered pair of plain senders, second route via {none, each of %d}, x every receiver (plain or observing), 4 option combinations",
-			maxN, len(procs), len(observing), kinds, uposs, len(sendAll), len(others), len(recvAll), len(pairs), len(others))
-		transfers(sendAll, join(none, singles), recvAll, bools, uposs)
-		transfers(procs, pairs, others, bools, uposs)
-		transfers(procs, observingMids, others, bools, uposs)
-		routes(recvAll, join(none, singles), []opts{{false, 0}, {true, 0}, {false, maxN}, {true, 1}})
+		routes(others, none, []opts{{Enc: false, UPos: 0}, {Enc: true, UPos: 0}})
+		return head + fmt.Sprintf(" process: every spec. transfer without observations: every sender x {no intermediary, each of %d} x receiver (%d). transfer with an observing sender (every subset) x {no intermediary, V0, unknowing} x every plain receiver; the same with an observing receiver and every plain sender; observing sender x observing receiver (direct, encoders off, position 0); plain sender x observing intermediary x plain receiver (encoders off, position 0). routes: every unordered pair of plain senders x plain receiver (position 0)",
+			len(others), len(others))
 	}
-	samples.flush(r)
 }
 
 func runConfig(cfg *Config) *run {
@@ -870,6 +1013,10 @@ func firstKey(x *run) string {
 }
 
 // execute runs one configuration and reports its first diverging clause.
+// The key is clause|n|order of the process at fault, then
+// "|observed-between" if the failure needs the observation points of the
+// configuration, "|payload" if it needs the payload-carrying encoders, and
+// "|generic" for the generic lineages.
 func execute(r *core.Result, cfg *Config, samples *sampler) {
 	x := runConfig(cfg)
 	r.States++
@@ -882,24 +1029,37 @@ func execute(r *core.Result, cfg *Config, samples *sampler) {
 	if len(x.fails) > 0 {
 		f := x.fails[0]
 		verdict = f.clause
-		key := firstKey(x)
+		base := firstKey(x)
+		key := base
 		msg := fmt.Sprintf("%s\nconfiguration: %s", f.msg, cfg)
-		needsObs := false
-		if cfg.observes() {
-			// does the failure need the observation points? Run the same
-			// configuration without them.
-			y := runConfig(cfg.plain())
+		variant := func(y *run, what, suffix, why string) bool {
 			r.Transitions += y.steps
 			r.Evaluations += y.evals
-			if firstKey(y) != key {
-				needsObs = true
-				key += "|observed-between"
-				was := "passes"
-				if len(y.fails) > 0 {
-					was = "fails differently (" + firstKey(y) + ")"
-				}
-				msg += "\nthe same configuration without the observation points " + was + ": letting the library see the types between two registrations changes what it answers after all of them"
+			if firstKey(y) == base {
+				return false
 			}
+			key += suffix
+			was := "passes"
+			if len(y.fails) > 0 {
+				was = "fails differently (" + firstKey(y) + ")"
+			}
+			msg += "\nthe same configuration " + what + " " + was + ": " + why
+			return true
+		}
+		needsObs, needsPayload := false, false
+		if cfg.observes() {
+			needsObs = variant(runConfig(cfg.plain()), "without the observation points", "|observed-between",
+				"letting the library see the types between two registrations changes what it answers after all of them")
+		}
+		if cfg.Enc {
+			d := *cfg
+			d.Enc = false
+			needsPayload = variant(runConfig(&d), "without custom encoders", "|payload",
+				"the failure needs types that cross the wire in the payload of a custom encoder registered under GetTypeKey")
+		}
+		if cfg.Lineage != "" {
+			key += lineageSuffix(cfg.Lineage)
+			msg += "\nlineage " + cfg.Lineage + ": the type names are " + cfg.lin().chain[0].leafName() + " etc."
 		}
 		if len(x.fails) > 1 {
 			seen := map[string]bool{}
@@ -916,7 +1076,7 @@ func execute(r *core.Result, cfg *Config, samples *sampler) {
 		fresh := !r.HasViolationKey(key)
 		r.Violate(key, msg, cfg)
 		if fresh {
-			if gt := goTestFor(f, needsObs); gt != "" {
+			if gt := goTestFor(f, needsObs, needsPayload || cfg.Lineage != ""); gt != "" {
 				for _, v := range r.Violations {
 					if v.Key == key {
 						v.GoTest = gt
@@ -929,10 +1089,16 @@ func execute(r *core.Result, cfg *Config, samples *sampler) {
 	if kind == "" {
 		kind = "registrations"
 	}
+	if cfg.Lineage != "" {
+		kind = cfg.Lineage + " " + kind
+	}
 	r.Outcome(fmt.Sprintf("%s|n=%d|%s", kind, cfg.maxN(), verdict))
 	r.Count("phase:"+cfg.Phase, 1)
 	if cfg.observes() {
 		r.Count("configurations-with-observation-points", 1)
+	}
+	if cfg.Lineage != "" {
+		r.Count("configurations-of-generic-lineages", 1)
 	}
 	if samples != nil {
 		samples.offer(r, cfg, x, verdict)
@@ -947,7 +1113,7 @@ type sampler struct {
 }
 
 func scenarioOf(c *Config) string {
-	if c.Kind != "leaf" || c.Enc || c.UPos != 0 {
+	if c.Lineage != "" || c.Kind != "leaf" || c.Enc || c.UPos != 0 {
 		return ""
 	}
 	if c.observes() {
@@ -1009,17 +1175,19 @@ func (s *sampler) flush(r *core.Result) {
 }
 
 // goTestFor writes a stand-alone test (public API only) for failures whose
-// root is the type key computed after a chain of declarations.
-func goTestFor(f failure, withObs bool) string {
+// root is the type key computed after a chain of declarations (with the
+// observations in between if the failure needs them). Failures that need
+// payloads or generic types get none.
+func goTestFor(f failure, withObs, other bool) string {
 	p := f.at
 	if !withObs {
 		p = p.plain()
 	}
-	if p.Direct || len(p.Order) < 2 {
+	if other || p.Direct || len(p.Order) < 2 {
 		return ""
 	}
 	switch f.clause {
-	case "typekey", "wirekey", "decode-type", "table":
+	case "typekey", "wirekey", "decode-type":
 	default:
 		return ""
 	}
